@@ -119,15 +119,119 @@ def _worker(args):
     return st
 
 
+_WARM = []
+
+
+def _warm_up():
+    """initialise z3 (and its tactics) once in the parent: forked workers
+    inherit the initialised library instead of paying ~1.3 s each"""
+    if _WARM:
+        return
+    try:                      # heavy imports once, before forking
+        import dclab  # noqa: F401
+        import dclab.cli  # noqa: F401
+        import dclab.rtdc_dataset.writer  # noqa: F401
+        import dclab.rtdc_dataset.fmt_hierarchy  # noqa: F401
+        import dclab.kde_methods  # noqa: F401
+        import scipy.interpolate  # noqa: F401
+    except Exception:
+        pass
+    import z3
+    x = z3.Real("warm_x")
+    s = z3.Solver()
+    s.add(x * x > 2)
+    s.check()
+    t = z3.Tactic("qfnra-nlsat").solver()
+    t.add(x * x == 2)
+    t.check()
+    _WARM.append(1)
+
+
+def _proc_main(conn, chunk):
+    for idx, args in chunk:
+        try:
+            res = _worker(args)
+        except BaseException as e:
+            res = {"fatal": "worker failed: %r" % (e,), "case": args[1],
+                   "params": args[2], "wall_s": 0}
+        try:
+            conn.send((idx, res))
+        except Exception:
+            break
+    conn.close()
+
+
 def run_cases(modname, cases, nproc=None, mutant=None, timeout=None):
+    """cases are distributed in chunks over forked worker processes; every
+    case has a hard wall-clock limit (a solver call that ignores its own
+    time-out is killed; the remaining cases of its chunk are re-queued)"""
     nproc = nproc or min(16, os.cpu_count() or 1, max(1, len(cases)))
+    if timeout is None:
+        try:
+            timeout = getattr(importlib.import_module(modname),
+                              "CASE_TIMEOUT", 900)
+        except Exception:
+            timeout = 900
     args = [(modname, n, p, mutant) for n, p in cases]
-    if nproc == 1 or len(cases) == 1:
+    if len(cases) == 1 and nproc == 1:
         return [_worker(a) for a in args]
+    _warm_up()
     ctx = multiprocessing.get_context("fork")
-    with ctx.Pool(nproc, maxtasksperchild=8) as pool:
-        res = pool.map_async(_worker, args, chunksize=1)
-        return res.get(timeout)
+    csize = max(1, len(args) // (nproc * 4))
+    items = list(enumerate(args))
+    queue = [items[k:k + csize] for k in range(0, len(items), csize)]
+    running = []
+    results = [None] * len(args)
+    while queue or running:
+        while queue and len(running) < nproc:
+            chunk = queue.pop(0)
+            pc, cc = ctx.Pipe(duplex=False)
+            pr = ctx.Process(target=_proc_main, args=(cc, chunk))
+            pr.start()
+            cc.close()
+            running.append({"pr": pr, "pc": pc, "chunk": list(chunk),
+                            "t": time.time()})
+        progressed = False
+        for r in list(running):
+            try:
+                while r["pc"].poll(0):
+                    idx, res = r["pc"].recv()
+                    results[idx] = res
+                    r["chunk"] = [c for c in r["chunk"] if c[0] != idx]
+                    r["t"] = time.time()
+                    progressed = True
+            except EOFError:
+                pass
+            if not r["chunk"]:
+                r["pr"].join(2)
+                r["pc"].close()
+                running.remove(r)
+                progressed = True
+            elif not r["pr"].is_alive() and not r["pc"].poll(0.1):
+                idx, a = r["chunk"].pop(0)
+                results[idx] = {"fatal": "worker died (exit %s)" %
+                                r["pr"].exitcode, "case": a[1],
+                                "params": a[2], "wall_s": 0}
+                if r["chunk"]:
+                    queue.append(r["chunk"])
+                r["pc"].close()
+                running.remove(r)
+                progressed = True
+            elif time.time() - r["t"] > timeout:
+                r["pr"].kill()
+                r["pr"].join(2)
+                idx, a = r["chunk"].pop(0)
+                results[idx] = {"fatal": "case timed out after %d s (hard "
+                                "limit)" % timeout, "case": a[1],
+                                "params": a[2], "wall_s": timeout}
+                if r["chunk"]:
+                    queue.append(r["chunk"])
+                r["pc"].close()
+                running.remove(r)
+                progressed = True
+        if not progressed:
+            time.sleep(0.02)
+    return results
 
 
 # ----------------------------------------------------------------- main
